@@ -7,7 +7,7 @@ import engines as E, menus as M
 
 def std_sources(tier, n_quick, n_thorough, dialects=None):
     n = n_quick if tier == "quick" else n_thorough
-    return E.src_corpus() + E.src_generated(n, SEED, dialects) + E.src_noisy(n, SEED)
+    return E.src_corpus() + E.src_limits() + E.src_generated(n, SEED, dialects) + E.src_noisy(n, SEED)
 
 
 def c03(tier, rep):
@@ -51,7 +51,11 @@ def c12(tier, rep):
                          "blank as space and tab, other as ASCII and non-BMP; plus tables in corpus/generated/noisy documents")
     _rows(rep, 6 if tier == "quick" else 8, (124, 92, 110, 32, 120), (32, 32), "ascii", ("count", "text", "col", "ast", "exception"))
     _rows(rep, 5 if tier == "quick" else 7, (124, 92, 110, 9, 128512), (9,), "tab_nonbmp", ("count", "text", "col", "ast", "exception"))
+    _rows(rep, 4 if tier == "quick" else 6, (124, 92, 110, 12288, 233), (160,), "exotic_blanks", ("count", "text", "col", "ast", "exception"))
     E.menu(rep, M.TABLES, 4 if tier == "quick" else 5, max_errs=3, invariants=["Inv_C12"], label="tables")
+    # ragged tables of up to 4 rows with 1, 2 and 3 cells: data table after a step, examples table after its header line
+    E.menu(rep, [M.TABLES[i] for i in (0, 1, 2, 3, 4, 5, 7, 12, 13)], 4, max_errs=3, invariants=["Inv_C12"], label="ragged-data", prefix=[1, 2, 3])
+    E.menu(rep, [M.TABLES[i] for i in (0, 1, 2, 3, 4, 5, 7, 12)], 3 if tier == "quick" else 4, max_errs=3, invariants=["Inv_C12"], label="ragged-examples", prefix=[1, 2, 3, 4])
     E.traces(rep, E.record_all(std_sources(tier, 300, 3000)), "corpus+gen+noisy")
 
 
@@ -82,6 +86,8 @@ def c18(tier, rep):
         rep.violation({"kind": "l0-replay:" + b["field"]}, {"engine": "l0", "what": "real Parser.parse differs from the small-step specification", "detail": b})
     rep.sample({"kinds": behs[len(behs) // 2]["input"], "delivered": behs[len(behs) // 2]["delivered"], "reported": behs[len(behs) // 2]["reported"]})
     E.menu(rep, M.LOOKAHEAD, 4 if tier == "quick" else 5, invariants=["Inv_C18"], label="lookahead")
+    if tier == "thorough":
+        E.layering(rep, M.LOOKAHEAD, 4, label="lookahead")
     # the printed token listing equals the reference listings of the acceptance corpus
     import record as R
     for f in sorted(glob.glob(os.path.join(REPO, "testdata", "good", "*.feature"))):
@@ -161,7 +167,9 @@ def c02(tier, rep):
         for b in bad[:10]:
             rep.violation({"kind": "l0-replay:" + b["field"]}, {"engine": "l0", "what": "real Parser.parse differs from the small-step specification", "detail": b})
         rep.sample({"kinds": behs[len(behs) // 2]["input"], "events": behs[len(behs) // 2]["events"][:3]})
-    # (f) real text: builder events and derivation predicate
+    # (f) the kind-level results transfer to real text: both grains of the parser specification agree
+    E.layering(rep, M.BASE, 3 if tier == "quick" else 4, label="base")
+    # (g) real text: builder events and derivation predicate
     E.menu(rep, M.BASE, 3 if tier == "quick" else 4, invariants=["Inv_C02"], label="base")
     E.traces(rep, E.record_all(std_sources(tier, 200, 2000)), "corpus+gen+noisy")
 
@@ -197,7 +205,25 @@ def c05(tier, rep):
         rep.violation({"kind": "spec-invariant", "invariant": inv}, {"engine": "MC_Keywords", "what": f"{inv} violated", "tlc_tail": res.out[-3000:]})
     # every keyword as a document through the real parser
     cases = K.all_cases(1 if tier == "quick" else 4) + K.foreign_cases(SEED, 300 if tier == "quick" else 3000) + K.header_cases(SEED, 400 if tier == "quick" else None)
-    E.traces(rep, E.record_all(cases, listing=True), "keywords+foreign+headers", batch=2500)
+    cases += K.star_cases()
+    E.traces(rep, E.record_all(cases, listing=True), "keywords+foreign+headers+star", batch=2500)
+    # the same documents through ONE re-used matcher: the dialect in force is the configured default unless the document says otherwise
+    import sessions as S
+    from gherkin.parser import Parser
+    from gherkin.ast_builder import AstBuilder
+    from gherkin.token_matcher import TokenMatcher
+    from gherkin.stream.id_generator import IdGenerator
+    shared = {}
+    for name, s, d in cases[:: 3 if tier == "quick" else 1]:
+        if E.known_finding_input(s):
+            continue
+        m = shared.setdefault(d, TokenMatcher(d))
+        fresh, _ = S.outcome(lambda: Parser(AstBuilder(IdGenerator())).parse(s, TokenMatcher(d)))
+        reused, _ = S.outcome(lambda: Parser(AstBuilder(IdGenerator())).parse(s, m))
+        rep.case(("reused-matcher", name))
+        if fresh != reused:
+            rep.violation({"kind": "reused-matcher"}, {"engine": "reuse", "what": "a matcher used before gives a different result than a fresh one", "source": s, "dialect": d,
+                                                       "fresh": fresh, "reused": reused})
     E.menu(rep, M.DIALECT, 4 if tier == "quick" else 5, invariants=["Inv_C05"], label="dialect")
     if tier == "thorough":
         E.traces(rep, E.record_all(E.src_generated(2000, SEED, sorted(json.loads(a)))), "generated-multidialect")
@@ -389,7 +415,8 @@ def c13(tier, rep):
                          "replayed; plus menu sequences with rejected outcomes and corpus/generated traces")
     q = tier == "quick"
     E.grow(rep, M.DOCSTRING, [([1, 2, 3, 4], 3 if q else 4), ([1, 2, 3, 5], 3 if q else 4), ([1, 2, 3, 6], 2 if q else 3), ([1, 2, 3, 7], 2 if q else 3),
-                              ([1, 18, 3, 4], 2), ([1, 19, 3, 5], 2)], invariants=["Inv_C13"], label="docstring", no_free_text=False)
+                              ([1, 18, 3, 4], 2), ([1, 19, 3, 5], 2), ([1, 21, 18, 3, 4], 2), ([1, 2, 3, 7, 17, 7, 3, 4], 2)],
+           invariants=["Inv_C13"], label="docstring", no_free_text=False)
     E.menu(rep, M.DOCSTRING[:15], 3 if q else 4, max_errs=2, invariants=["Inv_C13"], label="docstring-any")
     E.traces(rep, E.record_all(std_sources(tier, 300, 3000)), "corpus+gen+noisy")
 
